@@ -27,7 +27,7 @@ INTENSITIES = [Fraction(1, 2), Fraction(1), Fraction(2), Fraction(3), Fraction(5
 def translate():
     from translator import registry
 
-    return registry.generate("Cbca")
+    return registry.generate("Cbca", "KernelsCbca")
 
 
 # --------------------------------------------------------------------------------------------
@@ -66,6 +66,90 @@ def source_rule(report=None, status=None):
         report.translator_checks += 1
     _RULE["value"] = rule
     return rule
+
+
+# --------------------------------------------------------------------------------------------
+# the regenerated kernel (translator/pyloops.py, Generated/KernelsCbca.lean): translator cross-check
+# --------------------------------------------------------------------------------------------
+def kernel_images(rng, count):
+    """small float images for the translator cross-check: integers / halves, +inf (masked), and — the real function
+    accepts them, so the translator's reading must too — a few -inf and NaN cells"""
+    out = []
+    for row in ([1, 1, "inf", 1, 1], [1, 7, 1, 1, 7, 7, 1], ["inf", 1, 1, "inf"], [1], ["inf"], [0, 5, 10, 15, 20, 25],
+                [1, "nan", 1, 1], [1, "-inf", 1], [3, 3, 8, 3, 3]):
+        out.append([row])
+        out.append([[v] for v in row])
+    for _ in range(count):
+        H, W = rng.choice([1, 2, 3, 4, 5]), rng.randrange(1, 8)
+        base = gen_image(rng, H, W)
+        p_inf = rng.choice([0, 0.1, 0.3])
+        p_odd = rng.choice([0, 0, 0.08])
+        img = []
+        for y in range(H):
+            r = []
+            for x in range(W):
+                u = rng.random()
+                if u < p_inf:
+                    r.append("inf")
+                elif u < p_inf + p_odd:
+                    r.append(rng.choice(["nan", "-inf"]))
+                else:
+                    r.append(base[y][x] + rng.choice([0, 0, 0, Fraction(1, 2)]))
+            img.append(r)
+        out.append(img)
+    return out
+
+
+def kernel_cross_check(ctx, report, status):
+    """The REAL compiled `cross_support` on a few hundred small images against the translator's two exact readings of
+    the source it translated: `pyloops.interpret` (the whole function run imperatively on the AST) and
+    `pyloops.evaluate_px` (the per-pixel tree the Lean text is printed from).  A mismatch means the translator misreads
+    Python -> `status.problem("translator", …)`.  The third reading, Lean's, is checked at build time by the generated
+    `example`s of Generated/KernelsCbca.lean and Generated/KernelsLoopsSelfTest.lean."""
+    import numpy as np
+    from translator import gen_kernels_cbca, pyloops, pyloops_selftest
+
+    try:
+        k = gen_kernels_cbca.kernels()["crossSupportPx"]
+    except Exception:  # Unsupported: already reported by build_and_audit (translate())  # pylint: disable=broad-except
+        return
+    report.translator_checks += 1
+    try:
+        for what in pyloops_selftest.refused_problems():
+            status.problem("translator", f"pyloops self-test: a construct outside the subset is not refused — {what}")
+        for what in pyloops_selftest.python_problems():
+            status.problem("translator", f"pyloops self-test: the readings differ from CPython — {what}")
+    except Exception as exc:  # pylint: disable=broad-except
+        status.problem("translator", f"pyloops self-test crashed: {type(exc).__name__}: {exc}")
+    _, cbca = ad._mods()  # pylint: disable=protected-access
+    special = {"inf": np.inf, "-inf": -np.inf, "nan": np.nan}
+    problems = 0
+    import random
+
+    rng = random.Random(ctx.seed * 7919 + 1411)  # its own stream: the three streams of `run` keep their cases
+    for img in kernel_images(rng, ctx.n(220, 2500)):
+        H, W = len(img), len(img[0])
+        dist = rng.choice([1, 2, 2, 3, 4, 5, 6])
+        inten = rng.choice(INTENSITIES)
+        arr = np.array([[special.get(v, v) if isinstance(v, str) else float(v) for v in r] for r in img], dtype=np.float32)
+        real = cbca.cross_support(arr, np.int16(dist), np.float32(float(inten))).astype(int).tolist()
+        exact = pyloops.Arr([[v if isinstance(v, str) else Fraction(v) for v in r] for r in img], (H, W))
+        report.count("kernel_cross_support_calls")
+        try:
+            whole = pyloops.interpret(k.fn, [exact, dist, inten], k.numpy_names).data
+        except Exception as exc:  # pylint: disable=broad-except
+            whole = f"{type(exc).__name__}: {exc}"
+        try:
+            px = [[list(pyloops.evaluate_px(k, [exact, dist, inten], c, r)) for r in range(W)] for c in range(H)]
+            px = [[(list(v[1]) if v[0] == "ok" else v[0]) for v in row] for row in px]
+            bounds = list(pyloops.evaluate_bounds(k, [exact, dist, inten]))
+        except Exception as exc:  # pylint: disable=broad-except
+            px, bounds = f"{type(exc).__name__}: {exc}", [H, W]
+        if whole != real or px != real or bounds != [H, W]:
+            problems += 1
+            if problems <= 3:
+                status.problem("translator", f"translated cross_support evaluates differently from the real function on image={img} "
+                               f"len_arms={dist} intensity={inten}", f"real={real} interpret={whole} per_pixel={px} bounds={bounds}")
 
 
 # --------------------------------------------------------------------------------------------
@@ -574,6 +658,7 @@ def run(ctx, report, status):
         "non-trivial = more than one pixel; distinct by the full input"
     )
     rng = ctx.rng
+    kernel_cross_check(ctx, report, status)
     for name, case in core.load_corpus(PROP):
         check_case(ctx, report, case.get("input", case), "corpus:" + name, rule, independence=True)
     for case in directed_arms():
